@@ -13,6 +13,61 @@ def dfn(path, key, **kw):
 
 DATE_VIEW = 'r.0 == year && r.1 == month && r.2 == day'
 
+def _dt_arms():
+    rules = []
+    import itertools
+    for (d, h, m, s, n) in itertools.product([False, True], repeat=5):
+        if not (d or h or m or s or n):
+            rules.append(('RX', 'R5', r'write!\(f, "PT0S"\)', 'dt_sink_zero(f, Ghost(self.0 as int))', 1))
+            continue
+        lit = r'\{\}P' + (r'\{\}D' if d else '') + ('T' if (h or m or s or n) else '') + (r'\{\}H' if h else '') + (r'\{\}M' if m else '')
+        if s and n:
+            lit += r'\{\}\.\{\}S'
+        elif s:
+            lit += r'\{\}S'
+        elif n:
+            lit += r'0\.\{\}S'
+        args = ['sign'] + (['day'] if d else []) + (['hour'] if h else []) + (['minute'] if m else []) + (['seconds'] if s else []) + (['nanoseconds_str'] if n else [])
+        pat = r'write!\(f, "' + lit + '", ' + ', '.join(r'(\w+)' for _ in args) + r'\)'
+        # map captured groups to slots in order
+        gi = 2
+        slots = []
+        for flag in (d, h, m, s):
+            if flag:
+                slots.append('Some(\\%d)' % gi); gi += 1
+            else:
+                slots.append('None')
+        zero_sec = 'true' if (n and not s) else 'false'
+        frac = ('Some(&\\%d)' % gi) if n else 'None'
+        rep = 'dt_sink(f, \\1, %s, %s, %s, %s, %s, %s, Ghost(self.0 as int))' % (slots[0], slots[1], slots[2], slots[3], zero_sec, frac)
+        rules.append(('RX', 'R5', pat, rep, 1))
+    # longest literals first so that a shorter pattern never matches inside a longer one (they cannot: full write!(...) is matched)
+    return rules
+
+FMT_SIG = [(r"f: &mut std::fmt::Formatter<'_>", 'f: &mut FmtSink'), (r'-> std::fmt::Result', '-> FmtResult'), (r'^(\s*)fn ', r'\1pub fn ')]
+
+DURATION_FMT_PARTS = [
+        {'kind': 'fn', 'src': YM, 'path': 'impl std::fmt::Display for FeelYearsAndMonthsDuration::fn fmt', 'key': 'calendar::FeelYearsAndMonthsDuration::fmt',
+         'impl_header': 'impl FeelYearsAndMonthsDuration {',
+         'props': ['C14'], 'auto_props': ['C14', 'C05'], 'loops': 0,
+         'sig_rewrite': FMT_SIG,
+         'requires': [('representable', 'self.0 != i64::MIN')],
+         'body_prefix': 'proof { reveal_strlit("-"); reveal_strlit(""); }',
+         'rewrites': [('RX', 'R5', r'write!\(f, "P0M"\)', 'ym_sink_zero(f, Ghost(self.0 as int))', 1),
+                      ('RX', 'R5', r'write!\(f, "\{\}P\{\}M", (\w+), (\w+)\)', r'ym_sink(f, \1, None, Some(\2), Ghost(self.0 as int))', 1),
+                      ('RX', 'R5', r'write!\(f, "\{\}P\{\}Y", (\w+), (\w+)\)', r'ym_sink(f, \1, Some(\2), None, Ghost(self.0 as int))', 1),
+                      ('RX', 'R5', r'write!\(f, "\{\}P\{\}Y\{\}M", (\w+), (\w+), (\w+)\)', r'ym_sink(f, \1, Some(\2), Some(\3), Ghost(self.0 as int))', 1)],
+         },
+        {'kind': 'fn', 'src': DT, 'path': 'impl std::fmt::Display for FeelDaysAndTimeDuration::fn fmt', 'key': 'calendar::FeelDaysAndTimeDuration::fmt',
+         'impl_header': 'impl FeelDaysAndTimeDuration {',
+         'props': ['C14'], 'auto_props': ['C14', 'C05'], 'loops': 0,
+         'sig_rewrite': FMT_SIG,
+         'requires': [('representable', 'self.0 != i128::MIN')],
+         'body_prefix': 'proof { reveal_strlit("-"); reveal_strlit(""); lemma_dt_decomposition(iabs(self.0 as int)); }',
+         'rewrites': [('RX', 'R11', r'super::nanoseconds_to_string\(', 'nanoseconds_to_string(', 1)] + _dt_arms(),
+         },
+]
+
 UNIT = {
     'name': 'calendar',
     'uses': ['use std::cmp::Ordering;'],
@@ -79,5 +134,91 @@ impl vstd::std_specs::cmp::PartialOrdSpecImpl for FeelDate {
                      ('components_exact',
                       '(num_as_int(value.0) is Some && num_as_int(value.1) is Some && num_as_int(value.2) is Some && r is Ok) ==> '
                       'r->Ok_0.0 == num_as_int(value.0)->Some_0 && r->Ok_0.1 == num_as_int(value.1)->Some_0 && r->Ok_0.2 == num_as_int(value.2)->Some_0')]),
-    ],
+        # ------------------------------------------------------------------ years and months durations
+        {'kind': 'fn', 'src': YM, 'path': 'impl FeelYearsAndMonthsDuration::fn new_ym', 'key': 'calendar::FeelYearsAndMonthsDuration::new_ym',
+         'props': P15, 'auto_props': A15, 'loops': 0, 'ret': 'r',
+         'requires': [('no_overflow', 'i64::MIN <= years * 12 + months <= i64::MAX && i64::MIN <= years * 12 <= i64::MAX')],
+         'ensures': [('total', 'r.0 == years * 12 + months')]},
+        {'kind': 'fn', 'src': YM, 'path': 'impl FeelYearsAndMonthsDuration::fn years', 'key': 'calendar::FeelYearsAndMonthsDuration::years',
+         'props': P15, 'auto_props': A15, 'loops': 0, 'ret': 'r',
+         'ensures': [('consistent', 'r * 12 + (self.0 - r * 12) == self.0 && -12 < self.0 - r * 12 < 12'),
+                     ('sign', '(self.0 >= 0 ==> r >= 0) && (self.0 <= 0 ==> r <= 0)')]},
+        {'kind': 'fn', 'src': YM, 'path': 'impl FeelYearsAndMonthsDuration::fn months', 'key': 'calendar::FeelYearsAndMonthsDuration::months',
+         'props': P15, 'auto_props': A15, 'loops': 0, 'ret': 'r',
+         'ensures': [('consistent', '-12 < r < 12 && (self.0 - r) % 12 == 0'),
+                     ('sign', '(self.0 >= 0 ==> r >= 0) && (self.0 <= 0 ==> r <= 0)')]},
+        {'kind': 'fn', 'src': YM, 'path': 'impl FeelYearsAndMonthsDuration::fn as_months', 'key': 'calendar::FeelYearsAndMonthsDuration::as_months',
+         'props': P15, 'auto_props': A15, 'loops': 0, 'ret': 'r', 'ensures': [('total', 'r == self.0')]},
+        {'kind': 'fn', 'src': YM, 'path': 'impl FeelYearsAndMonthsDuration::fn abs', 'key': 'calendar::FeelYearsAndMonthsDuration::abs',
+         'props': P15, 'auto_props': A15, 'loops': 0, 'ret': 'r',
+         'requires': [('not_min', 'self.0 != i64::MIN')],
+         'ensures': [('abs', 'r.0 == iabs(self.0 as int)')]},
+        # ------------------------------------------------------------------ days and time durations
+        {'kind': 'item', 'src': DT, 'path': 'struct FeelDaysAndTimeDuration',
+         'rewrites': [('RX', 'R7', r'pub struct FeelDaysAndTimeDuration\(i128\);', 'pub struct FeelDaysAndTimeDuration(pub i128);', 1)]},
+        {'kind': 'item', 'src': DT, 'path': 'const NANOSECONDS_IN_DAY'},
+        {'kind': 'item', 'src': DT, 'path': 'const NANOSECONDS_IN_HOUR'},
+        {'kind': 'item', 'src': DT, 'path': 'const NANOSECONDS_IN_MINUTE'},
+        {'kind': 'item', 'src': DT, 'path': 'const NANOSECONDS_IN_SECOND'},
+    ] + [
+        {'kind': 'fn', 'src': DT, 'path': 'impl FeelDaysAndTimeDuration::fn ' + name, 'key': 'calendar::FeelDaysAndTimeDuration::' + name,
+         'props': P15, 'auto_props': A15, 'loops': 0, 'ret': 'r',
+         'requires': [('not_min', 'self.0 != i128::MIN')],
+         'body_prefix': 'proof { lemma_dt_decomposition(iabs(self.0 as int)); }',
+         'ensures': [('component', '%s(iabs(self.0 as int)) <= usize::MAX ==> r == %s(iabs(self.0 as int))' % (spec, spec))]}
+        for (name, spec) in [('get_days', 'dt_days'), ('get_hours', 'dt_hours'), ('get_minutes', 'dt_minutes'), ('get_seconds', 'dt_seconds')]
+    ] + [
+        {'kind': 'fn', 'src': DT, 'path': 'impl FeelDaysAndTimeDuration::fn abs', 'key': 'calendar::FeelDaysAndTimeDuration::abs',
+         'props': P15, 'auto_props': A15, 'loops': 0, 'ret': 'r',
+         'requires': [('not_min', 'self.0 != i128::MIN')], 'ensures': [('abs', 'r.0 == iabs(self.0 as int)')]},
+        {'kind': 'fn', 'src': DT, 'path': 'impl FeelDaysAndTimeDuration::fn as_seconds', 'key': 'calendar::FeelDaysAndTimeDuration::as_seconds',
+         'props': P15, 'auto_props': A15, 'loops': 0, 'ret': 'r',
+         'ensures': [('whole_seconds_toward_zero', 'isize::MIN <= self.0 <= isize::MAX ==> r == (if self.0 >= 0 { self.0 as int / 1_000_000_000 } else { -((-self.0 as int) / 1_000_000_000) })')]},
+        # ------------------------------------------------------------------ zone offsets and time validity
+        {'kind': 'item', 'src': Z, 'path': 'enum FeelZone'},
+        {'kind': 'fn', 'src': Z, 'path': 'impl FeelZone::fn new', 'key': 'calendar::FeelZone::new',
+         'props': ['C14'], 'auto_props': ['C14', 'C05'], 'loops': 0, 'ret': 'r',
+         'ensures': [('utc_iff_zero', '(offset == 0) ==> r is Utc'), ('offset_kept', '(offset != 0) ==> r is Offset && r->Offset_0 == offset')]},
+        {'kind': 'fn', 'src': 'feel/src/temporal/mod.rs', 'path': 'fn is_valid_time', 'key': 'calendar::is_valid_time',
+         'props': ['C14'], 'auto_props': ['C14', 'C05'], 'loops': 0, 'ret': 'r',
+         'ensures': [('time_of_day', 'r == (hour < 24 && minute < 60 && second < 60)')]},
+        {'kind': 'fn', 'src': Z, 'path': 'impl std::fmt::Display for FeelZone::fn fmt', 'key': 'calendar::FeelZone::fmt',
+         'impl_header': 'impl FeelZone {',
+         'props': ['C14'], 'auto_props': ['C14', 'C05'], 'loops': 0,
+         'sig_rewrite': [(r"f: &mut std::fmt::Formatter<'_>", 'f: &mut FmtSink'), (r'-> std::fmt::Result', '-> FmtResult'), (r'^(\s*)fn ', r'\1pub fn ')],
+         'requires': [('offset_representable', 'self is Offset ==> self->Offset_0 != i32::MIN')],
+         'rewrites': [('R12',),
+                      ('RX', 'R5', r'write!\(f, "Z"\)', 'fmt_sink0(f, "Z")', 1),
+                      ('RX', 'R5', r'write!\(f, ""\)', 'fmt_sink0(f, "")', 1),
+                      ('RX', 'R5', r'write!\(f, "\{\}\{:02\}:\{:02\}:\{:02\}", sign, hours, minutes, seconds\)', 'fmt_sink_c_i32_3(f, "{}{:02}:{:02}:{:02}", sign, hours, minutes, seconds)', 1),
+                      ('RX', 'R5', r'write!\(f, "\{\}\{:02\}:\{:02\}", sign, hours, minutes\)', 'fmt_sink_c_i32_2(f, "{}{:02}:{:02}", sign, hours, minutes)', 1),
+                      ('RX', 'R5', r'write!\(f, "@\{\}", zone\)', 'fmt_sink_str(f, "@{}", zone)', 1)],
+         'splices': [{'id': 'printed_offset_denotes_offset', 'op': 'before', 'anchor': 'if seconds > 0 {',
+                      'text': "assert((sign == '-' || sign == '+') && zone_text_denotes(sign == '-', hours as int, minutes as int, seconds as int) == *offset as int && 0 <= hours && 0 <= minutes < 60 && 0 <= seconds < 60);"}],
+         },
+    ] + DURATION_FMT_PARTS,
 }
+
+NOT_DECIDED = {
+    'C15': [
+        'instants on the UTC time line: date-time comparison/subtraction, zone rules, weekday go through chrono (A-chrono) and are not modelled',
+        'date construction from non-integer numbers (the contract quantifies over integer-valued arguments)',
+        'FeelTime / FeelDateTime accessors and the before/after/between families in temporal/mod.rs',
+        'duration addition/negation operator impls (Add/Sub/Neg) - plain i128 arithmetic, not yet under contract',
+    ],
+    'C14': [
+        'acceptance of literals (regular expressions), fraction digits through f64, IANA zone names (chrono-tz)',
+        'the text produced by core::fmt from the constrained arguments (A-fmt); nanoseconds_to_string (string code)',
+        'FeelDate / FeelTime / FeelDateTime Display, duration literal parsing (regex captures)',
+    ],
+    'C09': ['only the date order (FeelDate eq / partial_cmp) is decided in this unit'],
+    'C05': ['abs() at the minimum integer is excluded by a stated precondition (not_min / representable): callers are not checked to establish it'],
+}
+ASSUMPTIONS = [
+    'A-chrono: chrono accepts a (year, month, day) only if it is a valid Gregorian date in FEEL\'s year range (chrono_date_ok stub)',
+    'A-dec (integers): FeelNumber comparison is numeric order; conversions of an integer-valued number that fits the target are exact (num_to_i32/num_to_u8/num_from_* stubs)',
+    'A-fmt: core::fmt renders {} / {:02} / {:+03} as documented; the obligations constrain the arguments handed to write!',
+    'A-std: i32/i64/i128::abs specification (overflow at MIN excluded by precondition)',
+    'rewrite rules R5 (write! -> sink with slots derived from the format literal), R7, R11 (trait conversion call -> stub of its impl), R12 (.rem/.div method -> operator)',
+    'machine arithmetic is NOT treated as mathematical: Verus checks every + - * / % and cast in the extracted bodies; Rust signed / and % truncate toward zero (Verus semantics for exec code)',
+]
